@@ -280,9 +280,9 @@ pub fn child_log_encode(args: &[String]) -> i32 {
 }
 
 pub fn run(ctx: &Ctx) -> Finish {
-    let t = ctx.tier == Tier::Thorough;
+    let t = true;
     // 1. brute force: every width 0..=W at several lower ends and fractional offsets
-    let wmax: u64 = ctx.tier.pick(1024, 4096);
+    let wmax: u64 = 4096; // both tiers: the full sweep takes a few seconds
     let lowers: Vec<i64> = vec![-(1 << 20), -4097, -7, -1, 0, 1, 5];
     let fr = [0.0, 0.25, 0.5, 0.75];
     ctx.par((wmax + 1) as usize, |l, wi| {
@@ -318,7 +318,7 @@ pub fn run(ctx: &Ctx) -> Finish {
         }
     });
     // 2. every width up to 2^21 (quick: 2^17) through the complete-sequence criterion
-    let big: u64 = ctx.tier.pick(1 << 17, 1 << 21);
+    let big: u64 = 1 << 21;
     let chunk = 4096u64;
     ctx.par(((big + chunk - 1) / chunk) as usize, |l, ci| {
         for w in (ci as u64 * chunk + 1)..=((ci as u64 + 1) * chunk).min(big) {
